@@ -296,8 +296,7 @@ def cond_constraints(conds, subjects):
                 lo = c + 1
             elif hi is not None and hi == c:
                 hi = c - 1
-            else:
-                return False
+            # a hole strictly inside (or a value outside) the box: the box stays an over-approximation
         box[n] = [lo, hi]
         return True
 
